@@ -56,6 +56,11 @@ def simulate(choices, main, strategy=("rtb",), netcfg=None, trace_files=None, tr
     return out, sim
 
 
+def blocked_in(report):
+    """compact 'task -> what it is blocked in' from a deadlock / cap report"""
+    return dict((t["task"], t["what"]) for t in (report or []) if t["state"] == "BLOCKED")
+
+
 def result_from(out, sim, **extra):
     """standard result dict for the aggregator"""
     r = {"ok": out["kind"] == "ok", "kind": out["kind"], "cls": out.get("cls"), "sig": out.get("sig"),
